@@ -214,7 +214,8 @@ def main():
             a = run_hist(binary, img, valid, v["ops"], v["fails"], v["afail"])
             b = run_hist(binary, img, valid, v["ops"], v["fails"], v["afail"])
             if a[0] != 1 or a[2] != v["why"] or a[3] != b[3]:
-                rep.harness_error("divergence %s did not reproduce identically (%s / %s)" % (key, a[2], b[2]))
+                rep.harness_error("divergence %s did not reproduce identically (%s / %s): seed=%s k=%s image=%s damage=%s hist=%s ops=%s fails=%s afail=%s" % (
+                    key, a[2], b[2], r["case"]["seed"], v["k"], v["image"], v["damage"], v.get("hist"), v["ops"], v["fails"], v["afail"]))
                 continue
             ops, fails, afail, nr = minimise(binary, img, valid, v)
             final = run_hist(binary, img, valid, ops, fails, afail)
